@@ -1,4 +1,6 @@
 import H2T.Lemmas.WrapInv
+import H2T.Lemmas.WsCollapseBlock
+import H2T.Lemmas.CommentsDom
 
 /-! # C13 — output does not depend on source formatting of collapsible whitespace
 
@@ -8,9 +10,14 @@ the line already.  Status: **partial** — proved for the wrap machine: in norma
 acts like a plain space, and a whitespace character that directly follows another one is a no-op, so any two
 non-empty whitespace runs have the same effect; and splitting a text node at any point into two `add_text`
 calls with the same tag — which is all a comment or a neutral `span` inside text does to the renderer's input —
-leaves the block in the same state, in every white-space mode (`addText_split`).  That the tree builder hands a
-comment or neutral `span` to the renderer as exactly such a split is decided by correspondence and the metamorphic
-oracle (with the two named exceptions of DESIGN §8 #12). -/
+leaves the block in the same state, in every white-space mode (`addText_split`).  **For whole texts**: replacing any
+non-empty whitespace run inside a text by any other non-empty whitespace run leaves the wrap machine
+(`ws_runs_do_not_matter`) and the sub-renderer's `add_inline_text` (`inline_text_ws_runs_do_not_matter`, with the
+strikeout filter and the block-start logic) in the same state.  **Comments never matter, for the whole pipeline**:
+deleting every comment node of a document, at any depth, gives the same render tree (`comments_never_reach_the_tree`:
+`:nth-child` positions count elements only) and therefore the same outcome of `renderDom` under every configuration,
+decorator, width and style sheet (`comments_do_not_matter`).  That a neutral `span` is handed to the renderer as a
+split text is decided by correspondence and the metamorphic oracle (with the two named exceptions of DESIGN §8 #12). -/
 
 namespace H2T.C13
 
@@ -181,5 +188,40 @@ example :
     let run (s : List Ch) := (({ width := 10 } : WB).addText .normal [] [] s).toOption.bind fun b => b.finish.toOption
     run [mkCh 97, spaceCh, spaceCh, mkCh 98] = run [mkCh 97, spaceCh, mkCh 98] ∧
     run [mkCh 97, nl, tab, mkCh 98] = run [mkCh 97, spaceCh, mkCh 98] := by decide +kernel
+
+/-! ## whole texts, whole documents -/
+
+/-- **whitespace runs do not matter** (wrap machine, normal mode, any tags, any state): a text with a non-empty
+    whitespace run replaced by any other non-empty whitespace run — more or fewer blanks, tabs, newlines, Unicode spaces —
+    gives the same block or the same error -/
+theorem ws_runs_do_not_matter (b : WB) (mt wt : Tag) (pre w1 w2 rest : List Ch) (h1 : w1 ≠ []) (h2 : w2 ≠ [])
+    (a1 : w1.all Ch.ws = true) (a2 : w2.all Ch.ws = true) :
+    b.addText .normal mt wt (pre ++ w1 ++ rest) = b.addText .normal mt wt (pre ++ w2 ++ rest) :=
+  addText_ws_runs b mt wt pre w1 w2 rest h1 h2 a1 a2
+
+/-- the same for `add_inline_text` of a sub-renderer in normal mode: block-start logic, strikeout filter, annotations -/
+theorem inline_text_ws_runs_do_not_matter (s : SubR) (cfg : Cfg) (f : Ann → Ann) (pre w1 w2 rest : List Ch) (hm : s.wsMode = .normal)
+    (h1 : w1 ≠ []) (h2 : w2 ≠ []) (a1 : w1.all chIsWs = true) (a2 : w2.all chIsWs = true) :
+    s.addInlineText cfg (pre ++ w1 ++ rest) f = s.addInlineText cfg (pre ++ w2 ++ rest) f :=
+  addInlineText_ws_runs s cfg f pre w1 w2 rest hm h1 h2 a1 a2
+
+/-- **comments never reach the render tree**: building the tree of a DOM and of the DOM with every comment node deleted
+    (at any depth) gives the same result -/
+theorem comments_never_reach_the_tree (bc : BuildCfg) (n : Node) (up : List Css.Frame) (idx : Nat) :
+    build bc up idx (stripNode n) = build bc up idx n := build_strip bc n up idx
+
+/-- **comments do not matter**: the whole pipeline — style sheets, tree building, rendering — gives the same outcome on a
+    document and on the document without its comments -/
+theorem comments_do_not_matter (cfg : Cfg) (d : Deco) (w : Nat) (useDoc : Bool) (agentCss userCss : Option (List Char))
+    (ci : CharInfo) (depth : Nat) (dom : Node) :
+    renderDom cfg d w useDoc agentCss userCss ci depth (stripNode dom) = renderDom cfg d w useDoc agentCss userCss ci depth dom :=
+  renderDom_strip cfg d w useDoc agentCss userCss ci depth dom
+
+/-! non-vacuity: "a b" and "a \t\n b" -/
+example : ({ width := 10 } : WB).addText .normal [] [] (strCh "a" ++ [spaceCh] ++ strCh "b") =
+    ({ width := 10 } : WB).addText .normal [] [] (strCh "a" ++ [spaceCh, ⟨9, 1, true, false⟩, ⟨10, 1, true, false⟩, spaceCh] ++ strCh "b") :=
+  ws_runs_do_not_matter _ _ _ _ _ _ _ (by simp) (by simp) (by decide) (by decide)
+example : stripList [.comment, .text (strCh "a"), .comment, .elem "p" true [] [.comment, .text (strCh "b")]] =
+    [.text (strCh "a"), .elem "p" true [] [.text (strCh "b")]] := by simp [stripList]
 
 end H2T.C13
